@@ -338,4 +338,78 @@ theorem prepare_open_at_zero (f : Feeder) (mn block : Nat) (x : Sl) (hmn : 1 ≤
   | some r => simp
 
 
+/-! ### filter sets and the validator cache (C13_repeated_detid_counted_once, C14_valset_change_persisted) -/
+
+theorem setAdd_cases {α} [DecidableEq α] (size : Nat) (s : List α) (v : α) :
+    (setAdd size s v = (s, false)) ∨ (setAdd size s v = (s ++ [v], true) ∧ v ∉ s) := by
+  unfold setAdd
+  by_cases h1 : (s.length == size) = true
+  · simp [h1]
+  · by_cases h2 : v ∈ s
+    · simp [h1, h2]
+    · simp [h1, h2]
+
+theorem filterDetIDs_spec (size : Nat) (ps : List PriceTD) : ∀ (set : List String),
+    ((filterDetIDs size set ps).2.map (·.detID)).Nodup ∧
+    (∀ q ∈ (filterDetIDs size set ps).2, q.detID ∉ set) ∧
+    (∀ x ∈ set, x ∈ (filterDetIDs size set ps).1) := by
+  induction ps with
+  | nil => intro set; simp [filterDetIDs]
+  | cons p ps ih =>
+    intro set
+    rcases setAdd_cases size set p.detID with h | ⟨h, hn⟩
+    · have := ih set
+      simp only [filterDetIDs, h]
+      simpa using this
+    · obtain ⟨i1, i2, i3⟩ := ih (set ++ [p.detID])
+      simp only [filterDetIDs, h, if_true, List.map_cons]
+      refine ⟨?_, ?_, ?_⟩
+      · rw [List.nodup_cons]
+        refine ⟨?_, i1⟩
+        intro hm
+        rw [List.mem_map] at hm
+        obtain ⟨q, hq, he⟩ := hm
+        exact i2 q hq (by rw [he]; simp)
+      · intro q hq
+        rcases List.mem_cons.mp hq with e | hq'
+        · rw [e]; exact hn
+        · intro hc; exact i2 q hq' (by simp [hc])
+      · intro x hx; exact i3 x (by simp [hx])
+
+theorem cacheAddVals_flag (upd : List (Nat × Int)) : ∀ (acc : List (Nat × Int) × Bool),
+    let r := upd.foldl (fun (acc : List (Nat × Int) × Bool) (kv : Nat × Int) =>
+      match alookup kv.1 acc.1 with
+      | some pw =>
+        if kv.2 = 0 then (adel kv.1 acc.1, true)
+        else if pw ≠ kv.2 then (aset kv.1 kv.2 acc.1, true)
+        else acc
+      | none => (aset kv.1 kv.2 acc.1, true)) acc
+    (r.2 = true) ∨ (r = acc) := by
+  induction upd with
+  | nil => intro acc; right; rfl
+  | cons kv t ih =>
+    intro acc
+    simp only [List.foldl_cons]
+    cases hl : alookup kv.1 acc.1 with
+    | none =>
+      simp only
+      rcases ih (aset kv.1 kv.2 acc.1, true) with h | h
+      · left; exact h
+      · left; rw [h]
+    | some pw =>
+      simp only
+      by_cases h0 : kv.2 = 0
+      · simp only [h0, if_true]
+        rcases ih (adel kv.1 acc.1, true) with h | h
+        · left; exact h
+        · left; rw [h]
+      · by_cases h1 : pw = kv.2
+        · simp only [h0, if_false, ne_eq, h1, not_true_eq_false]
+          exact ih acc
+        · simp only [h0, if_false, ne_eq, h1, not_false_eq_true, if_true]
+          rcases ih (aset kv.1 kv.2 acc.1, true) with h | h
+          · left; exact h
+          · left; rw [h]
+
+
 end ExoVerif.Oracle
